@@ -527,6 +527,35 @@ def gen_value(repo):
     out.append("end Mingus.Gen.Value")
     return "\n".join(out) + "\n"
 
+# ---------------------------------------------------------------- containers.note
+def cls(tree, name):
+    for n in tree.body:
+        if isinstance(n, ast.ClassDef) and n.name == name:
+            return n
+    raise Shape("class %s not found" % name)
+
+def gen_note(repo):
+    t = parse(repo, "mingus/containers/note.py")
+    defaults = [(k, lit(module_assign(t, k))) for k in ("_DEFAULT_NAME", "_DEFAULT_OCTAVE", "_DEFAULT_CHANNEL", "_DEFAULT_VELOCITY")]
+    c = cls(t, "Note")
+    def bound(mname):
+        m = method(c, mname)
+        for n in ast.walk(m):
+            if isinstance(n, ast.Compare) and len(n.ops) == 2:
+                return (lit(n.left), type(n.ops[0]).__name__, type(n.ops[1]).__name__, lit(n.comparators[1]))
+        raise Shape("%s: no range test" % mname)
+    def stmts(mname):
+        return [ast.unparse(x) for x in body_wo_doc(method(c, mname))]
+    hz = stmts("to_hertz") + stmts("from_hertz")
+    out = ["namespace Mingus.Gen.Note"]
+    out.append("def defaultName : List Char := " + lstr(defaults[0][1]))
+    out.append("def defaults : List Int := " + llist(lint(v) for _, v in defaults[1:]))
+    out.append("def channelBound : Int × List Char × List Char × Int := (%s, %s, %s, %s)" % ((lint(bound("set_channel")[0]),) + tuple(lstr(x) for x in bound("set_channel")[1:3]) + (lint(bound("set_channel")[3]),)))
+    out.append("def velocityBound : Int × List Char × List Char × Int := (%s, %s, %s, %s)" % ((lint(bound("set_velocity")[0]),) + tuple(lstr(x) for x in bound("set_velocity")[1:3]) + (lint(bound("set_velocity")[3]),)))
+    out.append("def hzSource : List (List Char) := " + llist(lstr(x) for x in hz))
+    out.append("end Mingus.Gen.Note")
+    return "\n".join(out) + "\n"
+
 GENERATORS = {
     "Notes": gen_notes,
     "Keys": gen_keys,
@@ -535,6 +564,7 @@ GENERATORS = {
     "Chords": gen_chords,
     "Progressions": gen_progressions,
     "Value": gen_value,
+    "Note": gen_note,
 }
 
 def main():
